@@ -60,6 +60,11 @@ pub struct RunResult {
     pub harness_panic: Option<String>,
 }
 
+/// triage aid, never set by the registered commands: every eligible run becomes a marathon
+fn force_marathon() -> bool {
+    std::env::var("PERPSIM_FORCE_MARATHON").map(|v| v == "1").unwrap_or(false)
+}
+
 /// One complete seeded run: world, history, oracle. Pure function of (prop, seed, run).
 pub fn one_run(prop: &str, seed: u64, run: u64, keep_log: bool) -> RunResult {
     if prop == "C13" {
@@ -85,31 +90,31 @@ pub fn one_run(prop: &str, seed: u64, run: u64, keep_log: bool) -> RunResult {
     }
     // marathons: whatever a contract keeps in a list that grows with the history (or bounds it) is only exercised by
     // histories far longer than the usual ones
-    if prop == "C11" && cfg.kind == WorldKind::Standard && cfg.vamms.len() == 1 && rng.chance(1, 120) {
+    if prop == "C11" && cfg.kind == WorldKind::Standard && cfg.vamms.len() == 1 && (rng.chance(1, 120) || force_marathon()) {
         profile.marathon = Some("funding");
         profile.min_steps = 380;
         profile.max_steps = 520;
         profile.w = [12, 74, 6, 6, 2, 0, 0];
         profile.p_fault = (0, 100);
     }
-    if prop == "C18" && cfg.kind == WorldKind::FeedOnly && rng.chance(1, 12) {
+    if prop == "C18" && cfg.kind == WorldKind::FeedOnly && (rng.chance(1, 12) || force_marathon()) {
         profile.marathon = Some("feed");
         profile.min_steps = 560;
         profile.max_steps = 700;
     }
-    if matches!(prop, "C15" | "C18" | "C01") && cfg.kind == WorldKind::VammDirect && rng.chance(1, 60) {
+    if matches!(prop, "C15" | "C18" | "C01") && cfg.kind == WorldKind::VammDirect && (rng.chance(1, 60) || force_marathon()) {
         profile.marathon = Some("blocks");
         profile.long_busy = false;
         profile.min_steps = 1100;
         profile.max_steps = 1300;
         profile.w = [90, 0, 2, 0, 4, 0, 0];
     }
-    if matches!(prop, "C05" | "C06" | "C07") && cfg.kind == WorldKind::Standard && !profile.long_busy && rng.chance(1, 100) {
+    if matches!(prop, "C05" | "C06" | "C07") && cfg.kind == WorldKind::Standard && cfg.vamms.len() == 1 && !profile.long_busy && (rng.chance(1, 30) || force_marathon()) {
         // many hundreds of trading blocks a second or less apart: far more reserve snapshots inside one 15-minute
         // window than the long busy histories reach
         profile.marathon = Some("seconds");
-        profile.min_steps = 1000;
-        profile.max_steps = 1250;
+        profile.min_steps = 1500;
+        profile.max_steps = 1800;
         profile.w = [62, 18, 2, 16, 2, 0, 0];
         profile.p_fault = (0, 100);
     }
